@@ -114,6 +114,17 @@ def check_c15(case, stats=None):
                     bad("deny-ctx-call-accepted", "%s issued from a callback of module %d (M_MOD_DENY_CTX) returned %d" % (c.op, inner, r.ret), r)
                 if c.op == "ctx_quit":
                     quit_refused.append((r.i, c.args[0]))
+            # --- names: a lookup by name finds exactly the live module registered under it
+            if c.op == "lookup" and known and len(sl) > 1 and not calls and not cbs and c.fields["_ctx"].get("ctx") == "1":
+                name = F.name.get(sl[1])
+                exp = c.fields["_live"].get(name, -1)
+                if exp != -1 and c.fields["_st"].get(exp) in (None, "Z"):
+                    exp = -1
+                cnt("lookups_judged")
+                if exp == -1 and r.ret >= 0:
+                    bad("lookup-found-dead-name", "m_mod_lookup('%s') returned module %d although no live module is registered under that name" % (name, r.ret), r)
+                elif exp != -1 and r.ret != exp and F.name.get(r.ret) != name:
+                    bad("lookup-missed-live-module", "m_mod_lookup('%s') returned %s although module %d is registered under that name and alive (%s)" % (name, "nothing" if r.ret < 0 else "module %d" % r.ret, exp, c.fields["_st"].get(exp)), r)
             # --- persist
             if c.op == "dereg" and known and (fl & MOD_PERSIST) and c.fields["_loop"]:
                 cnt("persist_dereg_while_looping")
